@@ -32,6 +32,10 @@ for _p in ('a=r.T,b=r', 'a=r,b=r.T', 'a=view(r),b=r', 'a=r,b=view(r)'):
 # assignments of changing derivative order before the aliased call
 _min.update({'max:scalar-history-combos': 1302, 'max:vector-history-combos': 420, 'max:matrix-history-combos': 414,
              'history-applied:scalar': 40000, 'history-cases:vector': 12000, 'history-cases:matrix': 12000})
+# MdotV / VdotM with a non-square matrix: result and vector operand of different length, slices of one parent placed anywhere
+_min.update({'max:vector-nonsquare-combos': 54, 'vector-alias:overlap-b:any': 10000, 'vector-alias:overlap-a:any': 10000,
+             'nonsquare-placement:disjoint': 2000, 'nonsquare-placement:overlap,other': 12000,
+             'nonsquare-placement:overlap,shorter-starts-at-offset>=its-length': 7000})
 # the reallocation path: receiver = operand of lower derivative order than another operand
 _min.update({'scalar-recv-lower-order:r=a': 4000, 'scalar-recv-lower-order:r=b': 4000, 'scalar-recv-lower-order:t=a': 2500,
              'scalar-recv-lower-order:t=b': 2500, 'scalar-recv-lower-order:t=r': 2500})
@@ -68,7 +72,10 @@ CFG = {
             'starting before = lag / after = lead), scalar operand = element of the receiver. Matrices (dense and sparse): '
             'M{add,sub,mul,div}{M,S}, MdotM with result = left, = right, = both, operand = transpose view of the receiver, overlapping '
             'slices, scalar operand = element of the receiver; MdotM/MDOTM additionally with both factors aliasing the receiver in '
-            'different ways (a = r.T() & b = r, a = r & b = r.T(), a = full-range Slice view of r & b = r, a = r & b = view). Monitors *.history.*: the Real cases again, but the object that is receiver/temporary and operand at once (for containers: every '
+            'different ways (a = r.T() & b = r, a = r & b = r.T(), a = full-range Slice view of r & b = r, a = r & b = view). Monitors vector.nonsquare.*: MdotV / VdotM (generic and concrete, dense and sparse, all types) with a NON-square matrix, result '
+            '(length n) and vector operand (length m != n) slices of one parent of length max(n,m) or one more, every placement for n, m in 1..5 '
+            '(overlap anywhere incl. the shorter slice at an offset >= its own length and at the very end, and disjoint placements); an '
+            'overlap must be rejected by the API or give the fresh-receiver result. Monitors *.history.*: the Real cases again, but the object that is receiver/temporary and operand at once (for containers: every '
             'stored element of the aliased receiver) first goes through 1-4 library assignments of changing derivative order (2 -> 1 -> 0 -> '
             '2 ..., same and different N) and is restored through the library to the prescribed observable state before the aliased call; '
             'the reference uses freshly built operands; a divergence that disappears with plainly built operands is classed needs-history. '
